@@ -507,6 +507,13 @@ class Evaluator:
                 return a.cmp_with(op, b)
             if hasattr(b, "cmp_with"):
                 return b.cmp_with({"<": ">", ">": "<", "<=": ">=", ">=": "<="}.get(op, op), a)
+        # a pointer that holds an integer constant (`(T *) -1` sentinels) compared with nullptr or with another such constant
+        if op in ("==", "!=") and ((a is None and isinstance(b, int) and not isinstance(b, bool)) or (b is None and isinstance(a, int) and not isinstance(a, bool))):
+            eq = (a or 0) == (b or 0)
+            return eq if op == "==" else not eq
+        if op in ("==", "!=") and ((hasattr(a, "addr") and isinstance(b, int) and not isinstance(b, bool)) or (hasattr(b, "addr") and isinstance(a, int) and not isinstance(a, bool))) \
+           and not hasattr(a, "cmp_with") and not hasattr(b, "cmp_with"):
+            return op == "!="          # an object is never at a sentinel address
         isptr = lambda x: x is None or hasattr(x, "addr")
         if isptr(a) and isptr(b) and not (isinstance(a, (int, bool)) and not isinstance(a, type(None))) :
             aa = 0 if a is None else a.addr
